@@ -384,10 +384,11 @@ func exec(op string) vlib.Res {
 			or = "FAIL sig=store/srecz/empty-zone-recorded"
 		}
 		if enabled && zone != "" {
-			// read the recorded state back through its own name
-			h, ok := fc.Lookup(cache.FailureQuestionKey{Question: dns.Question{Name: zone, Qtype: 1, Qclass: qc}})
-			if ok && h.Kind == cache.FailureKindZone {
-				or = worst(or, ref.recorded(refZ(cache.FailureZoneKey{Zone: zone, Qclass: qc}), h, "srecz"))
+			// read the recorded zone state back from its own slot (a Lookup of
+			// the zone's name would be shadowed by an exact question state)
+			zk := cache.FailureZoneKey{Zone: zone, Qclass: qc}
+			if ra, streak, ok := preState(refZ(zk), cache.VerifC13ZoneHash(zk)); ok {
+				or = worst(or, ref.recorded(refZ(zk), cache.FailureHit{Kind: cache.FailureKindZone, Streak: streak, RetryAfter: time.Unix(0, ra), Zone: zk}, "srecz"))
 			}
 		}
 		return vlib.Res{Impl: fmt.Sprintf("len=%d", fc.Len()), Oracle: or, Tags: "nt"}
@@ -468,6 +469,8 @@ func exec(op string) vlib.Res {
 		return vlib.Res{Impl: fmt.Sprintf("len=%d", fc.Len()), Oracle: or}
 	case "sset": // <name> <type> <class> <keycd> <scope> <class: useful|servfail|other> <now>
 		return execSet(a)
+	case "eserve": // <q key 5 (scope = the client's ECS source prefix)> <now> <outcome> <response SCOPE bits>
+		return execServeECS(a)
 	case "alias": // <name> <class> <cd> <opt t/f> <now> <target outcome>
 		return execAlias(a)
 	case "serve": // <name> <type> <class> <cd> <opt t/f> <now> <upstream outcome>
@@ -544,6 +547,7 @@ func execNew(a []string) vlib.Res {
 	cfg.RecursionFirewall.FailureCacheSize = size
 	cfg.RecursionFirewall.FailureCacheMinTTL.Duration = gmin
 	cfg.RecursionFirewall.FailureCacheMaxTTL.Duration = gmax
+	cfg.ECS = config.ECSConfig{Enabled: true, ForwardV4Max: 24, ForwardV6Max: 56, MinScopeV4: 24, MinScopeV6: 56}
 	full = cache.New(cfg)
 	cache.VerifC13UseFailureCache(full, fc)
 	st = cache.VerifC13StoreOf(full)
@@ -882,6 +886,115 @@ func execServe(a []string) vlib.Res {
 				ref.resetQ(k)
 				ref.resetMatching(k)
 				or = worst(or, ref.afterSuccess(k, "serve"))
+			}
+		}
+	}
+	return vlib.Res{Impl: impl, Oracle: or, Tags: "nt"}
+}
+
+// ecsUpstream is the scripted handler behind the cache for ECS clients: its
+// answers carry an ECS option whose SCOPE is scripted (0 = global answer).
+type ecsUpstream struct {
+	calls   int
+	k       cache.FailureQuestionKey
+	outcome string
+	rs      int
+}
+
+func (u *ecsUpstream) Name() string { return "ecs-upstream" }
+func (u *ecsUpstream) ServeDNS(ctx context.Context, ch *middleware.Chain) {
+	u.calls++
+	class := u.outcome
+	if strings.HasPrefix(class, "local:") {
+		class = "servfail"
+	}
+	res := buildResponse(u.k, class)
+	if strings.HasPrefix(u.outcome, "local:") {
+		ctx, _ = middleware.EnsureResolutionAttemptGuard(ctx)
+		middleware.MarkRequestLocalFailureResponse(ctx, res, causeErr(u.outcome[6:]))
+	}
+	if (class == "useful" || class == "nxdomain") && u.rs >= 0 {
+		res.SetEdns0(1232, false)
+		res.IsEdns0().Option = append(res.IsEdns0().Option, ecsOption(u.k.Scope, uint8(u.rs)))
+	}
+	_ = ch.Writer.WriteMsg(res)
+	ch.Cancel()
+}
+
+func ecsOption(p netip.Prefix, scope uint8) *dns.EDNS0_SUBNET {
+	fam := uint16(2)
+	if p.Addr().Is4() {
+		fam = 1
+	}
+	return &dns.EDNS0_SUBNET{Code: dns.EDNS0SUBNET, Family: fam, SourceNetmask: uint8(p.Bits()), SourceScope: scope, Address: p.Masked().Addr().AsSlice()}
+}
+
+// fail eserve <name> <type> <class> <cd> <client ECS source prefix> <now> <outcome> <response SCOPE bits | -1 no option>
+// One ECS client request through the real Cache.ServeDNS (ECS-aware caching on).
+func execServeECS(a []string) vlib.Res {
+	k := parseQ(a[:5])
+	setNow(a[5])
+	rs := vlib.Atoi(a[7])
+	up := &ecsUpstream{k: k, outcome: a[6], rs: rs}
+	ch := middleware.NewChain([]middleware.Handler{full, up})
+	w := mock.NewWriter("udp", "192.0.2.77:4242")
+	req := newReq(k)
+	req.SetEdns0(1232, false)
+	req.IsEdns0().Option = append(req.IsEdns0().Option, ecsOption(k.Scope, 0))
+	cache.VerifC13ForgetAnswersScoped(full, k.Question, k.Scope)
+	pre, preOK := fc.Lookup(k)
+	before := snapshot()
+	ref.observe(refQ(k), cache.VerifC13QuestionHash(k))
+	ch.Reset(w, req)
+	ch.Next(context.Background())
+	cache.VerifC13ForgetAnswersScoped(full, k.Question, k.Scope)
+	reply := w.Msg()
+	h, ok := fc.Lookup(k)
+	or := "ok"
+	var impl string
+	switch {
+	case reply == nil:
+		impl, or = "noreply", "FAIL sig=eserve/no-reply"
+	case up.calls == 0:
+		impl = "hit upstream=0 " + fmtResp(reply)
+		or = judgeResponse(req, reply, "eserve")
+		if !preOK {
+			or = "FAIL sig=eserve/answered-without-upstream-although-nothing-is-suppressed"
+		} else {
+			or = worst(or, ref.judgeLookup(k, pre, preOK, "eserve"))
+		}
+		if !enabled {
+			or = "FAIL sig=eserve/disabled-served-from-failure-cache"
+		}
+	default:
+		impl = fmt.Sprintf("miss upstream=%d rcode=%d len=%d %s", up.calls, reply.Rcode, fc.Len(), fmtLookup(h, ok))
+		if preOK && enabled {
+			or = "FAIL sig=eserve/active-failure-went-upstream"
+		}
+		if !enabled && snapshot() != before {
+			or = "FAIL sig=eserve/disabled-but-state-changed"
+		}
+		if enabled {
+			switch {
+			case strings.HasPrefix(a[6], "local:") && localCause(a[6][6:]):
+				if snapshot() != before {
+					or = "FAIL sig=eserve/request-local-failure-became-shared-state cause=" + a[6][6:]
+				}
+			case a[6] == "servfail" || a[6] == "refused" || strings.HasPrefix(a[6], "local:"):
+				if ok && h.Kind == cache.FailureKindQuestion {
+					or = worst(or, ref.recorded(refQ(k), h, "eserve"))
+				}
+			default:
+				// the recovery is real for the audience that asked, whatever
+				// audience the answer itself is filed under
+				ref.resetQ(k)
+				ref.resetMatching(k)
+				if rs <= 0 {
+					g := k
+					g.Scope = netip.Prefix{}
+					ref.resetQ(g)
+				}
+				or = worst(or, ref.afterSuccess(k, "eserve"))
 			}
 		}
 	}
